@@ -36,6 +36,19 @@ func (r *rng) intn(n int) int {
 
 func (r *rng) chance(num, den int) bool { return r.intn(den) < num }
 
+// perm returns a random permutation of 0..n-1.
+func (r *rng) perm(n int) []int {
+	p := make([]int, n)
+	for i := range p {
+		p[i] = i
+	}
+	for i := n - 1; i > 0; i-- {
+		j := r.intn(i + 1)
+		p[i], p[j] = p[j], p[i]
+	}
+	return p
+}
+
 func pick[T any](r *rng, xs []T) T { return xs[r.intn(len(xs))] }
 
 // classify maps an error to the model's ErrClass names; "other" when nothing is recognised.
